@@ -582,19 +582,20 @@ impl World {
                 }
                 !(acc as u16)
             };
-            // the last 16-bit word of the source address and the source port are rewritten
+            // an address-rewriting device: the last 16-bit word of the SOURCE ADDRESS is rewritten
+            // in the datagram itself (so every router beyond quotes the rewritten address) and the
+            // UDP checksum is fixed up accordingly; the ports are preserved (a device that rewrote
+            // them would make the quotation unrecognisable to the tracer)
             let a_off = if self.cfg.v6 { 22 } else { 14 };
             let mut cur_a = u16::from_be_bytes([q[a_off], q[a_off + 1]]);
-            let mut cur_p = u16::from_be_bytes([q[l4off], q[l4off + 1]]);
             for (i, h) in self.cfg.topo.hops.iter().enumerate() {
                 if i <= upto_hop && h.nat {
                     let new_a = 0xc0a8u16.wrapping_add(i as u16 * 3);
-                    let new_p = 40000u16.wrapping_add(i as u16 * 7);
-                    ck = adj(adj(ck, cur_a, new_a), cur_p, new_p);
+                    ck = adj(ck, cur_a, new_a);
                     cur_a = new_a;
-                    cur_p = new_p;
                 }
             }
+            q[a_off..a_off + 2].copy_from_slice(&cur_a.to_be_bytes());
             q[l4off + 6..l4off + 8].copy_from_slice(&ck.to_be_bytes());
             udp_ck = Some(ck);
         }
